@@ -95,6 +95,11 @@ def derive(case: dict) -> dict:
         g = case.get("g", 1)
         return {"A": [[g * LN2_100]], "b": [0.0], "C": [[F(2 ** g)]], "d": [F(0)], "y0": [F(y) for y in case["y0"]],
                 "xs": None, "tol": tol}
+    if kind == "orbit":  # undamped rotation with period 100/q: returns to itself after every search step (F-C15-5)
+        w = 2 * math.pi * case["q"] / 100.0
+        I2 = [[F(1), F(0)], [F(0), F(1)]]
+        return {"A": [[0.0, -w], [w, 0.0]], "b": [0.0, 0.0], "C": I2, "d": [F(0), F(0)], "y0": [F(y) for y in case["y0"]],
+                "xs": None, "tol": tol}
     if kind == "blowup":
         # dx/dt = x^2 on the first variable (x(t) = x0 / (1 - x0 t): finite-time blow-up at 1/x0), the others relax to
         # zs with factor 2^-m per step.  Exact rational flow until the singularity; then the solver must give up.
@@ -512,6 +517,9 @@ def gen_case(rng):
 
 
 FIXED = [
+    # F-C15-5: undamped oscillators with period 100 and 50 (x' = -w y, y' = w x): "steady" at t = 100 with non-zero fluxes
+    {"kind": "orbit", "q": 1, "y0": [3, 4], "tol_exp": 3, "rel": False, "y0mode": "default", "scan": False},
+    {"kind": "orbit", "q": 2, "y0": [3, 4], "tol_exp": 4, "rel": True, "y0mode": "user", "scan": False},
     # F-C15-4: a drift slower than the tolerance per search step (dx/dt = 2^-30, tolerance 1e-6) is reported as steady;
     # the same drift is refused at tolerance 1e-9
     {"kind": "accumulate", "b": ["1/1073741824"], "y0": [1], "tol_exp": 6, "rel": False, "y0mode": "default", "scan": True},
@@ -609,6 +617,11 @@ def judge_case(ctx, case, r, m, orc):
             finding = "F-C15-2" if case["rel"] else "F-C15-4"
             key = "rel_criterion_met_while_accumulating" if case["rel"] else "abs_criterion_met_by_slow_drift"
             ctx.hist[key] = ctx.hist.get(key, 0) + 1
+    # F-C15-5 (policy): an undamped orbit whose period divides step_size returns to itself after every search step and is reported
+    # as steady at the first one (C15_stroboscopic_false_success: step y0 = y0)
+    if case["kind"] == "orbit" and n_exact == 1 and R.get("outcome") == "steady" and R.get("n") == 1:
+        finding = "F-C15-5"
+        ctx.hist["orbit_with_period_dividing_step_size"] = ctx.hist.get("orbit_with_period_dividing_step_size", 0) + 1
     ctx.judge(case, R, S, M, finding=finding,
               what="simulate_to_steady_state(...).get_result() vs closed-form flow from the state the simulator holds")
 
